@@ -556,7 +556,16 @@ static unsigned rnd (void) { rng ^= rng << 13; rng ^= rng >> 7; rng ^= rng << 17
 static FILE *trace;      /* random mode: one JSON line per granted step (code -> spec validation against NoteTrace.tla) */
 static void log_step (int t) {
 	int k;
-	if (!trace || S.kind != K_NOTE) return;
+	if (!trace) return;
+	if (S.kind == K_COUNTER) {
+		fprintf (trace, "{\"t\":%d,\"k\":\"%s\",\"v\":%u,\"wd\":%u}\n", t + 1, rt_kind_name (rt_last (t)->kind),
+			 S.cfreed ? 0 : *(volatile uint32_t *) &S.c->value, S.cfreed ? 0 : *(volatile uint32_t *) &S.c->waited);
+		return;
+	}
+	if (S.kind == K_ONCE) {
+		fprintf (trace, "{\"t\":%d,\"k\":\"%s\",\"ow\":[%u,%u]}\n", t + 1, rt_kind_name (rt_last (t)->kind), *(volatile uint32_t *) S.once[0], *(volatile uint32_t *) S.once[1]);
+		return;
+	}
 	fprintf (trace, "{\"t\":%d,\"k\":\"%s\",\"nm\":[", t + 1, rt_kind_name (rt_last (t)->kind));
 	for (k = 1; k <= S.nnotes; k++) fprintf (trace, "%s%d", k > 1 ? "," : "", (S.note[k] != NULL && !S.freed[k] && *(volatile uint32_t *) &S.note[k]->notified != 0) ? 1 : 0);
 	fprintf (trace, "],\"cv\":%u}\n", S.c ? *(volatile uint32_t *) &S.c->value : 0);
@@ -587,9 +596,9 @@ static int run_random (long runs, unsigned seed, const char *init, const char *v
 			int cand[RT_MAXT], nc = 0, t;
 			for (i = 0; i < S.n; i++) if (rt_enabled (i)) cand[nc++] = i;
 			if ((nc == 0 || (rnd () % 16) == 0) && (rt_now () < RT_T0 + maxdl + 1 || once_timed_waiter ())) {
-				if (trace && !(rt_now () < RT_T0 + maxdl && tick_useful ())) { if (nc == 0) break; }      /* while recording, the clock moves only when the specification lets it */
+				if (trace && !(S.kind == K_ONCE ? once_timed_waiter () : (rt_now () < RT_T0 + maxdl && (S.kind == K_NOTE ? tick_useful () : rt_timed_waiter_pending ())))) { if (nc == 0) break; }      /* while recording, the clock moves only when the specification lets it */
 				else
-				if (nc == 0 || (rnd () % 2)) { rt_tick (); fprintf (sf, "S 0 Tick *\n"); if (trace) fprintf (trace, "{\"t\":0,\"k\":\"tick\",\"nm\":[],\"cv\":0}\n"); guard++; if (guard > 50000) break; continue; }
+				if (nc == 0 || (rnd () % 2)) { rt_tick (); fprintf (sf, "S 0 Tick *\n"); if (trace) fprintf (trace, "{\"t\":0,\"k\":\"tick\"}\n"); guard++; if (guard > 50000) break; continue; }
 			}
 			if (nc == 0) break;
 			t = cand[rnd () % (unsigned) nc];
@@ -607,7 +616,7 @@ static int run_random (long runs, unsigned seed, const char *init, const char *v
 		}
 		steps_total += guard;
 		if (!rt_first_violation () && !all_done ()) finish (1);
-		if (trace) fprintf (trace, "{\"t\":0,\"k\":\"reset\",\"nm\":[],\"cv\":0}\n");
+		if (trace) fprintf (trace, "{\"t\":0,\"k\":\"reset\"}\n");
 		fclose (sf);
 		if (rt_first_violation ()) {
 			const struct rt_viol *v = rt_first_violation ();
